@@ -5,6 +5,7 @@ import (
 	"strings"
 	"text/scanner"
 	"unicode"
+	"unicode/utf8"
 )
 
 // Note:
@@ -252,7 +253,7 @@ func ValidatePathGlob(pat string) []InvalidGlobPattern {
 	}
 	if strings.HasSuffix(pat, " ") {
 		return []InvalidGlobPattern{
-			{"path value must not end with spaces", len(pat)},
+			{"path value must not end with spaces", utf8.RuneCountInString(pat)},
 		}
 	}
 	return validateGlob(pat, false)
